@@ -77,11 +77,14 @@ def pack_standard(evs):
     for e in evs:
         ev = e["ev"]
         base = {"ev": ev, "proc": e["proc"], "seq": e["seq"]}
-        for k in ("it", "n_dead", "n_integ", "n_vols", "n_nlive", "n_ins", "evals", "train", "nckpt"):
+        for k in ("it", "n_dead", "n_integ", "n_vols", "n_nlive", "n_ins", "evals", "train", "nckpt",
+                  "last_train", "n_hist", "cooldown", "max_uninformed", "poolsize"):
             if k in e:
                 base[k] = int(e[k])
         if "fin" in e:
             base["fin"] = bool(e["fin"])
+        if "train_on_empty" in e:
+            base["train_on_empty"] = bool(e["train_on_empty"])
         if "phase" in e:
             base["phase"] = e["phase"]
         if "evals_here" in e:
@@ -149,7 +152,7 @@ def pack_standard(evs):
                 new_it=int(n["it"]), worst_it=int(w["it"]), it_sum=int(e["live"]["it_sum"]),
                 lmin=rk(e["lmin"]), integ_last=[rk(e["integ_last"][0]), int(e["integ_last"][1])],
                 ins_last=int(e["ins_last"]), above=bool(e["above"]), it0=int(e["it0"]),
-                n_draws=len(draws),
+                n_draws=len(draws), pool_left=int(e.get("pool_left", 0)),
                 # every rejected draw is not acceptable, the accepted one is the last
                 draws_ok=bool(all((not (d[2] and d[3])) or (rk(d[1]) <= rk(e["lmin"])) for d in draws[:-1])
                               and (not draws or draws[-1][0] == n["id"])),
